@@ -2,6 +2,7 @@
    Input lines (tab separated):
      V <tcode> <rval>          all routes        C <tcode> <rval>   core routes only
      G <tcodeW> <tcodeT> <rval>   request at type W for a global of type T holding the value
+     D <tcode> <rval>          the value is stored in a global (extern module)
    <tcode>: i64 | ... | (option T) | (result E T) | (vec T) | (map T) | (tuple T..) |
             (struct xNAME kind (xFIELD T)..) | (enum xNAME (xVARIANT kind (xFIELD T)..)..)
    <rval>:  i<dec> | f<hex> | b0 | b1 | s<hex> | u | n | (S v) | (O v) | (E v) | (L v..) |
@@ -203,6 +204,11 @@ let handle line =
             "sershape=" ^ bool_s (shape_ok (gluon_ty t) s) ]
         end in
       String.concat "\t" (core @ extra)
+  | ["D"; tc; v] ->
+      (* defining a global that holds the value: the model has nothing that could fail *)
+      let _ = tcode_of (parse_sx tc) in
+      let _ = rval_of (parse_sx v) in
+      "define=OK"
   | ["G"; tw; tt; v] ->
       let w = tcode_of (parse_sx tw) in
       let t = tcode_of (parse_sx tt) in
